@@ -10,6 +10,7 @@
 -/
 import YalafiVerif.Proofs.Inv.Basic
 import YalafiVerif.Proofs.Utils
+import YalafiVerif.Proofs.GenRepl
 namespace Yalafi
 
 theorem C04_latexError_anchor (T : Tables) (hm : T.mark ≠ []) (err : Str) (pos n : Nat) (hp : pos < n) :
@@ -21,5 +22,16 @@ theorem C04_latexError_anchor (T : Tables) (hm : T.mark ≠ []) (err : Str) (pos
 theorem C04_restamp (T : PTables) (n p : Nat) (t : Tok) (hs : storedOk T t = true) (hp : p < n) :
     BTok T n { t with pos := p, fix := true } :=
   BTok_restamp T n p t hs hp
+
+/-- every token of a macro expansion is a token of an argument (unchanged, so it keeps its own
+    source position), or generated text pinned (`fix`) to the start of the call or to the position
+    of an argument token, or a text-less position marker at an argument token: nothing in an
+    expansion maps outside the call and its arguments -/
+theorem C04_genRepl_anchor (args : List (List Tok)) (repl : List Tok) (start : Nat) (out : List Tok)
+    (h : generateReplacements args repl start = some out) :
+    ∀ t ∈ out, (∃ a ∈ args, t ∈ a) ∨
+      (t.fix = true ∧ (t.pos = start ∨ ∃ a ∈ args, ∃ u ∈ a, t.pos = u.pos)) ∨
+      (∃ a ∈ args, ∃ u ∈ a, t = mkAction u.pos) :=
+  genRepl_anchor args repl start out h
 
 end Yalafi
